@@ -303,3 +303,39 @@ def c17_step(tier, seed, rundir, log):
     cov.update({"evaluations": n_meas, "distinct_nontrivial": n_meas, "samples": samples[:16], "scaling_wall_s": round(time.time() - t0, 1),
                 "scaling_families_measured_three_times": remeasured})
     return hits, cov
+
+
+F1_BASE = "B : (int -> type) = (n : int) => if n <= 0 then int else B (n - 1)\n"
+F1_PROGRAMS = [
+    ("original", F1_BASE + "((m : int) => (k : B m) => ((e : int) => (x : B e) => x) m k) 2 5\n"),
+    ("unused definition added inside the index of the recursive family", F1_BASE + "((m : int) => (k : B m) => ((e : int) => (x : B (s : int = 20; e)) => x) m k) 2 5\n"),
+    ("`if` with two equal branches around an argument", F1_BASE + "((m : int) => (k : B m) => ((e : int) => (x : B e) => x) (if 1 > 6 then m else m) k) 2 5\n"),
+]
+
+
+def c19_step(tier, seed, rundir, log):
+    """C19 on the real binary for the one family the in-process search has to avoid: a rewrite next to the index
+    of a recursive type family makes the conversion check unfold for ever (it would kill the harness process)."""
+    hits, cov = [], {}
+    ok, out = build_gram(log)
+    if not ok:
+        return [{"property": "C19", "kind": "gram-does-not-build", "input": "", "detail": out[-400:], "suite": "cli"}], cov
+    d = os.path.join(rundir, "cli19")
+    os.makedirs(d, exist_ok=True)
+    outcomes = []
+    for label, src in F1_PROGRAMS:
+        path = os.path.join(d, "f1.g")
+        open(path, "w").write(src)
+        try:
+            p = subprocess.run(["bash", "-c", f"ulimit -v 2000000; exec {GRAM} run {path}"], stdout=subprocess.PIPE, stderr=subprocess.PIPE,
+                               timeout=20, env=dict(os.environ, NO_COLOR="1"))
+            outcomes.append((label, src, f"exit {p.returncode}: {(p.stdout + p.stderr)[:120]!r}"))
+        except subprocess.TimeoutExpired:
+            outcomes.append((label, src, "no answer within 20 s"))
+    base = outcomes[0][2]
+    for label, src, o in outcomes[1:]:
+        if o != base:
+            hits.append({"property": "C19", "kind": "rewrite-changes-outcome-of-the-real-binary", "input": src,
+                         "detail": f"{label}: original program -> {base}; rewritten -> {o}", "suite": "cli"})
+    cov.update({"evaluations": len(outcomes), "distinct_nontrivial": len(outcomes), "samples": [f"{l}: {o}" for l, _, o in outcomes]})
+    return hits, cov
